@@ -594,19 +594,19 @@ def listRegionIDs : Nat → Cache → PD → Bytes → Bytes → List Region →
       if l.contains endKey then (c1, .ok (l :: acc).reverse)
       else listRegionIDs fuel c1 pd l.endKey endKey (l :: acc)
 
+/-- the regions built from an EpochNotMatch answer: `newRegion` gets no leader from the store's error (work peer = first
+    peer), then the work peer is switched to ctx.Store if that store has a peer -/
+def epochNews (store : Nat) (current : List PdRegion) : List Entry :=
+  current.map (fun m => { m.toEntry with leader := if m.peers.contains store then store else m.peers.headD 0 })
+
 /-- `OnRegionEpochNotMatch(ctx{Region: v, Store: store}, currentRegions)` -/
 def onRegionEpochNotMatch (c : Cache) (v : VerID) (store : Nat) (current : List PdRegion) : Cache × Except Err Unit :=
   if current.isEmpty then (c.invalidate v, .ok ())
   else if current.any (fun m => m.r.id == v.id && (decide (m.r.confVer < v.confVer) || decide (m.r.ver < v.ver))) then
     (c, .error .retry)
   else
-    let news := current.map (fun m =>
-      let e := m.toEntry
-      -- newRegion gets no leader from the store's error: work peer = first peer, then switched to ctx.Store if it has a peer
-      { e with leader := if m.peers.contains store then store else m.peers.headD 0 })
-    let needInvalidateOld := !(news.any (fun e => e.r.verID == v))
-    let c1 := if needInvalidateOld then c.invalidate v else c
-    (news.foldl (fun c e => (insertRegionToCache c e).1) c1, .ok ())
+    let c1 := if !((epochNews store current).any (fun e => e.r.verID == v)) then c.invalidate v else c
+    ((epochNews store current).foldl (fun c e => (insertRegionToCache c e).1) c1, .ok ())
 
 /-- `UpdateLeader(regionID, leader{StoreId: store}, _)` with a non-nil leader -/
 def updateLeader (c : Cache) (v : VerID) (store : Nat) : Cache :=
